@@ -50,7 +50,7 @@ def main():
     results_v = []
     results_k = {}
     kmeta = []
-    with cf.ThreadPoolExecutor(max_workers=6) as ex:
+    with cf.ThreadPoolExecutor(max_workers=12) as ex:
         futs = {}
         for u in verus_units:
             futs[ex.submit(vf.verus_with_retry, u["unit"], u.get("rlimit", 200))] = ("v", u)
